@@ -16,6 +16,7 @@ package drv
 
 import (
 	"bufio"
+	"bytes"
 	"context"
 	"errors"
 	"fmt"
@@ -117,6 +118,14 @@ type streamEx struct {
 	HandlerPan string
 	Herr       error // harness failure (cannot build a value, missing method, timeout)
 
+	// unary calls on the same mounted pair (operation sequences, opseq.go): what the stub
+	// answers, what the client endpoint returned, the complete response the server wrote
+	Reply      func(method string, args []any) []any
+	Res        any
+	RespHeader http.Header
+	RespBody   []byte
+	ReqBody    []byte
+
 	reqSeen     atomic.Bool
 	handlerDone chan struct{}
 	tickets     *int64
@@ -163,6 +172,7 @@ type rwTap struct {
 func (w *rwTap) WriteHeader(code int) {
 	if w.ex.Status == 0 {
 		w.ex.Status = code
+		w.ex.RespHeader = w.Header().Clone()
 	}
 	w.ResponseWriter.WriteHeader(code)
 }
@@ -170,9 +180,13 @@ func (w *rwTap) WriteHeader(code int) {
 func (w *rwTap) Write(b []byte) (int, error) {
 	if w.ex.Status == 0 {
 		w.ex.Status = 200
+		w.ex.RespHeader = w.Header().Clone()
 	}
 	if len(w.ex.Body) < 400 {
 		w.ex.Body += string(b)
+	}
+	if len(w.ex.RespBody) < 1<<16 {
+		w.ex.RespBody = append(w.ex.RespBody, b...)
 	}
 	return w.ResponseWriter.Write(b)
 }
@@ -291,6 +305,10 @@ func (ss *StreamSvc) serve(w http.ResponseWriter, r *http.Request) {
 	}
 	defer close(ex.handlerDone)
 	ex.ServerReq = r.Clone(context.Background())
+	if streamKind(ex.M) == "" && r.Body != nil {
+		ex.ReqBody, _ = io.ReadAll(r.Body)
+		r.Body = io.NopCloser(bytes.NewReader(ex.ReqBody))
+	}
 	r = r.WithContext(context.WithValue(r.Context(), streamKey{}, ex))
 	defer func() {
 		if p := recover(); p != nil {
@@ -335,6 +353,16 @@ func (ss *StreamSvc) hook(method string, args []any) []any {
 		return nil
 	}
 	atomic.AddInt32(&ex.Invoked, 1)
+	if streamKind(ex.M) == "" {
+		// a unary method of a service mounted on sockets (operation sequences)
+		if ex.M.Payload != nil && len(args) >= 2 {
+			ex.GotPayload = ss.S.V.Get(reflect.ValueOf(args[1]), ex.M.Payload)
+		}
+		if ex.Reply != nil {
+			return ex.Reply(method, args)
+		}
+		return nil
+	}
 	if ex.M.Payload != nil && len(args) >= 3 {
 		ex.GotPayload = ss.S.V.Get(reflect.ValueOf(args[1]), ex.M.Payload)
 	}
